@@ -290,6 +290,31 @@ func Run(args []string) {
 		}
 		os.Remove(in)
 	}
+	// the same types under their alternative option set (page hashes for PE images): the option takes the digester
+	// down a path of its own, both when signing and when verifying what was signed with it
+	for _, tn := range types {
+		aq, ok := pipelinex.AltQuery[tn]
+		if !ok || !strings.HasPrefix(tn, "pe-") {
+			continue
+		}
+		ti := pipelinex.TypeByName(tn)
+		src, _ := os.ReadFile(pipelinex.Pkgs + ti.Fixture)
+		ext := filepath.Ext(ti.Fixture)
+		bases = append(bases, base{"opt:" + tn, false, src, ext})
+		in := filepath.Join(dir, "optbase-"+tn+ext)
+		os.WriteFile(in, src, 0600)
+		q := url.Values{}
+		for a, b := range aq {
+			q.Set(a, b)
+		}
+		if _, err := pipex.Sign(pipex.SignRequest{Cfg: w.Cfg, Token: w.Token, KeyName: "rsa2048", SigType: ti.SigType, In: in, Out: in, Digest: "sha256", Query: q}); err == nil {
+			b, _ := os.ReadFile(in)
+			bases = append(bases, base{"opt:" + tn, true, b, ext})
+		} else {
+			r.Note("%s with options: cannot sign the fixture: %v", tn, err)
+		}
+		os.Remove(in)
+	}
 	// upload tarballs
 	for _, tn := range tarTypes {
 		ti := pipelinex.TypeByName(tn)
@@ -320,7 +345,7 @@ func Run(args []string) {
 	var cases []*caseT
 	n := 0
 	for bi, b := range bases {
-		formats := formatOf[b.typ]
+		formats := formatOf[strings.TrimPrefix(b.typ, "opt:")]
 		if strings.HasPrefix(b.typ, "tar:") {
 			formats = []string{"tar"}
 		}
@@ -394,6 +419,9 @@ func Run(args []string) {
 	}
 	// nested compressed streams: garble the inside of a member whose decoder runs in a helper goroutine or behind a pipe
 	for bi, b := range bases {
+		if strings.HasPrefix(b.typ, "opt:") {
+			continue
+		}
 		for _, st := range StreamsOf(b.typ, b.data) {
 			for _, how := range []string{"garble-early", "garble-mid", "suffix"} {
 				var d []byte
@@ -557,6 +585,48 @@ func Run(args []string) {
 			}
 		}
 	}
+	// exponent fields: the class table's boundary values of a one-byte field (127, 128, 255) all shift to zero; the
+	// values in between are the ones that make a size of their own
+	for bi, b := range bases {
+		if b.typ != "macho" || !b.signed {
+			continue
+		}
+		for _, f := range FieldsOf("macho", b.data) {
+			if f.Name != "cd.pageSizeLog2" {
+				continue
+			}
+			for _, v := range []uint64{20, 31, 33, 40, 62, 63} {
+				for _, entry := range tb.Entries {
+					n++
+					d := append([]byte(nil), b.data...)
+					writeField(d, f, v)
+					p := filepath.Join(dir, fmt.Sprintf("x%d-%d%s", bi, n, b.ext))
+					os.WriteFile(p, d, 0600)
+					cases = append(cases, &caseT{Type: b.typ, Signed: true, Format: "macho", Field: f.Name, Class: "exponent", Entry: entry, Value: v, path: p})
+				}
+			}
+		}
+	}
+	// a PE image whose headers take more than one page (FileAlignment 8192: the first section starts at 8192): valid,
+	// unusual; with and without the page-hash option
+	for _, tn := range []string{"pe-exe", "pe-dll"} {
+		ti := pipelinex.TypeByName(tn)
+		src, _ := os.ReadFile(pipelinex.Pkgs + ti.Fixture)
+		for _, newHdr := range []int{8192, 4096 + 512} {
+			d := padPEHeaders(src, newHdr)
+			if d == nil {
+				continue
+			}
+			for _, typ := range []string{tn, "opt:" + tn} {
+				for _, entry := range []string{"transform", "server", "verify"} {
+					n++
+					p := filepath.Join(dir, fmt.Sprintf("bighdr-%d%s", n, filepath.Ext(ti.Fixture)))
+					os.WriteFile(p, d, 0600)
+					cases = append(cases, &caseT{Type: typ, Signed: false, Format: "pe", Field: "headers", Class: fmt.Sprintf("padded-to-%d", newHdr), Entry: entry, Value: uint64(newHdr), path: p})
+				}
+			}
+		}
+	}
 	// run
 	jobs := make(chan *caseT)
 	var wg sync.WaitGroup
@@ -597,6 +667,9 @@ func Run(args []string) {
 						resultLine = l
 					}
 				}
+				if show := os.Getenv("VERIF_MALX_SHOW"); show != "" && show == c.Class {
+					fmt.Fprintf(os.Stderr, "[show] %s -> %s (%v, rss %d MiB)\n", desc, resultLine, el.Round(time.Millisecond), rss>>20)
+				}
 				switch {
 				case timedOut:
 					key["kind"], key["site"] = "hang", c.Type
@@ -628,7 +701,7 @@ func Run(args []string) {
 					r.Fail(key, c, "%s: the request goroutine panicked in %s (recovered by the server, answered %s)", desc, site, resultLine)
 				default:
 					r.Count("outcome_"+strings.Fields(resultLine)[1], 1)
-					if c.Class == "int31" || c.Class == "garble-mid" {
+					if c.Class == "int31" || c.Class == "garble-mid" || c.Class == "exponent" {
 						r.Sample(map[string]any{"case": c, "result": resultLine})
 					}
 				}
@@ -646,6 +719,39 @@ func Run(args []string) {
 	r.Emit()
 }
 
+// padPEHeaders moves the section data of a PE image down so that the headers take newHdr bytes (zero padding), and
+// says so in SizeOfHeaders and in every section's PointerToRawData.
+func padPEHeaders(data []byte, newHdr int) []byte {
+	if len(data) < 0x40 {
+		return nil
+	}
+	le := binary.LittleEndian
+	peOff := int(le.Uint32(data[0x3c:]))
+	if peOff+24 > len(data) {
+		return nil
+	}
+	nsec := int(le.Uint16(data[peOff+6:]))
+	optSize := int(le.Uint16(data[peOff+20:]))
+	opt := peOff + 24
+	oldHdr := int(le.Uint32(data[opt+60:]))
+	tbl := opt + optSize
+	if oldHdr >= newHdr || oldHdr > len(data) || tbl+40*nsec > oldHdr {
+		return nil
+	}
+	delta := newHdr - oldHdr
+	out := append([]byte(nil), data[:oldHdr]...)
+	out = append(out, make([]byte, delta)...)
+	out = append(out, data[oldHdr:]...)
+	le.PutUint32(out[opt+60:], uint32(newHdr))
+	for i := 0; i < nsec; i++ {
+		o := tbl + 40*i + 20
+		if v := le.Uint32(out[o:]); v != 0 {
+			le.PutUint32(out[o:], v+uint32(delta))
+		}
+	}
+	return out
+}
+
 // Child: vh malformed-child <entry> <type> <path> <worlddir>
 func Child(args []string) {
 	entry, typ, path, wdir := args[0], args[1], args[2], args[3]
@@ -653,6 +759,13 @@ func Child(args []string) {
 	sigtype := ""
 	tarBody := strings.HasPrefix(typ, "tar:")
 	tn := strings.TrimPrefix(typ, "tar:")
+	optq := url.Values{}
+	if strings.HasPrefix(tn, "opt:") {
+		tn = strings.TrimPrefix(tn, "opt:")
+		for a, b := range pipelinex.AltQuery[tn] {
+			optq.Set(a, b)
+		}
+	}
 	ti := pipelinex.TypeByName(tn)
 	sigtype = ti.SigType
 	mod := signers.ByName(sigtype)
@@ -685,7 +798,7 @@ func Child(args []string) {
 		if err != nil {
 			panic(err)
 		}
-		flags, _ := mod.FlagsFromQuery(url.Values{})
+		flags, _ := mod.FlagsFromQuery(optq)
 		tr, err := mod.GetTransform(f, signers.SignOpts{Path: path, Hash: crypto.SHA256, Flags: flags})
 		if err != nil {
 			out("error %.80s", strings.ReplaceAll(err.Error(), "\n", " "))
@@ -724,7 +837,7 @@ func Child(args []string) {
 		if tarBody {
 			body = f
 		} else {
-			flags, _ := mod.FlagsFromQuery(url.Values{})
+			flags, _ := mod.FlagsFromQuery(optq)
 			tr, err := mod.GetTransform(f, signers.SignOpts{Path: path, Hash: crypto.SHA256, Flags: flags})
 			if err != nil {
 				out("client-error %.80s", strings.ReplaceAll(err.Error(), "\n", " "))
